@@ -22,6 +22,17 @@ func (a *Analyzer) QualifiedResolution() []RuleResult {
 		return []RuleResult{{"B-QUALIFIED", fn, "anchor", "", false, "function not found"}}
 	}
 	var out []RuleResult
+	// the name is a path on disk, used as written: percent-decoding it (a reference is a URI reference, a command-line path is not)
+	// makes the tool open another file than the one named as soon as a directory contains a valid %XX escape
+	decoded := ""
+	for _, c := range Calls(f) {
+		switch shortCallee(c) {
+		case "net/url.PathUnescape", "net/url.QueryUnescape":
+			decoded = shortCallee(c) + " at " + a.P.InstrPos(c.(ssa.Instruction))
+		}
+	}
+	out = append(out, RuleResult{"B-QUALIFIED", fn, "the name is resolved as written (no percent-decoding)", a.P.Pos(f.Pos()), decoded == "",
+		map[bool]string{true: "no URL decoding of the file name", false: "the file name passes through " + decoded + ": moving the schema directory to a path that contains %XX changes which file is read"}[decoded == ""]})
 	var evals []*ssa.Call
 	joinOK := false
 	for _, c := range Calls(f) {
